@@ -116,7 +116,7 @@ def _run_group_in(name, outdir, rlimit=None, canary_calls=None, timeout=600):
     text = open(path).read()
     # append the canary (inside the verus! block)
     calls = g.get('canary', '')
-    text = text.replace('} // verus!', CANARY % calls + '} // verus!')
+    text = text.replace('} // verus!', CANARY % calls + g.get('vacuity', '') + '} // verus!')
     with open(path, 'w') as f:
         f.write(text)
     res['units'] = metas
@@ -204,7 +204,12 @@ def _run_group_in(name, outdir, rlimit=None, canary_calls=None, timeout=600):
     if not canary_seen:
         res['reason'] = 'consistency canary was NOT rejected: assumptions may be contradictory'
         return res
-    real = [f for f in funcs if 'verif_canary_must_fail' not in f['function']]
+    # every `…_must_fail` function (the canary, and the vacuity guards that restate a theorem's hypotheses with `ensures false`) must be rejected
+    accepted = [f['function'] for f in funcs if 'must_fail' in f['function'] and f.get('success')]
+    if accepted:
+        res['reason'] = 'guard NOT rejected (contradictory assumptions or hypotheses): %s' % accepted
+        return res
+    real = [f for f in funcs if 'must_fail' not in f['function']]
     if not real:
         res['reason'] = 'vacuity guard: Verus reported zero verified functions'
         return res
